@@ -1,2 +1,83 @@
-(* placeholder: theorems being added *)
-From DC Require Import Model.Base Model.Label.
+(* C16 - Genbank annotations define the same problem as the Python API.
+   Theorems: the label grammar of Specification.from_label / list_from_label round-trips -- a
+   descriptor (role, name, positional and keyword arguments) rendered in the documented syntax
+   ("@"/"~", name, arguments between parentheses separated by ", ", ":" or "=" keywords, "|" lists,
+   labels joined by "&", blanks around) is parsed back to the same descriptor, and values are typed as
+   documented (quoted -> string, integer, decimal, otherwise bare string).
+   Partial: that the parsed descriptor, handed to the class constructors, defines the same
+   specifications as a direct constructor call, that names/shorthands resolve to their classes, and
+   the Genbank write -> load round trip (Biopython) are decided by the differential run. *)
+From Coq Require Import ZArith Bool List Ascii String Lia.
+From DC Require Import Model.Base Model.Label Proofs.LabelProofs.
+Import ListNotations.
+Open Scope Z_scope.
+
+Theorem C16_format_atom_bare : forall s, plain s -> parse_int s = None -> is_decimal s = false ->
+  format_atom s = VStr s.
+Proof. exact format_atom_bare. Qed.
+Print Assumptions C16_format_atom_bare.
+
+Theorem C16_format_atom_quoted : forall s, forallb (fun c => negb (Ascii.eqb c (ch "'"))) s = true ->
+  format_atom (ch "'" :: s ++ [ch "'"]) = VStr s.
+Proof. exact format_atom_quoted. Qed.
+Print Assumptions C16_format_atom_quoted.
+
+Theorem C16_format_atom_int : forall z, format_atom (render_int z) = VInt z.
+Proof. exact format_atom_int. Qed.
+Print Assumptions C16_format_atom_int.
+
+Theorem C16_format_atom_decimal : forall t, plain t -> is_decimal t = true -> parse_int t = None ->
+  format_atom t = VFloat t.
+Proof. exact format_atom_decimal. Qed.
+Print Assumptions C16_format_atom_decimal.
+
+Theorem C16_split_join_char : forall c l, l <> [] -> Forall (free_of c) l -> split [c] (join [c] l) = l.
+Proof. exact split_join_char. Qed.
+Print Assumptions C16_split_join_char.
+
+Theorem C16_split_join_comma_space : forall l, l <> [] -> Forall (free_of (ch ",")) l ->
+  split (lit ", ") (join (lit ", ") l) = l.
+Proof. exact split_join_comma_space. Qed.
+Print Assumptions C16_split_join_comma_space.
+
+Theorem C16_format_value_list : forall atoms, (2 <= List.length atoms)%nat -> Forall plain atoms ->
+  format_value (join (lit "|") atoms) = VList (map format_atom atoms).
+Proof. exact format_value_list. Qed.
+Print Assumptions C16_format_value_list.
+
+Theorem C16_parse_keyword_argument : forall (eq : bool) k v, plain k -> plain v ->
+  parse_arg (k ++ [if eq then ch "=" else ch ":"] ++ v) = Some (Kw k (format_atom v)).
+Proof. exact parse_keyword_argument. Qed.
+Print Assumptions C16_parse_keyword_argument.
+
+Theorem C16_parse_positional_argument : forall v, plain v -> parse_arg v = Some (Pos (format_atom v)).
+Proof. exact parse_positional_argument. Qed.
+Print Assumptions C16_parse_positional_argument.
+
+Theorem C16_parse_label_roundtrip : forall (constraint : bool) name texts args,
+  plain name -> Forall2 rendered_arg texts args ->
+  parse_label ([if constraint then ch "@" else ch "~"] ++ name ++ lit "(" ++ join (lit ", ") texts ++ lit ")")
+  = Some (constraint, name, args).
+Proof. exact parse_label_roundtrip. Qed.
+Print Assumptions C16_parse_label_roundtrip.
+
+Theorem C16_parse_label_no_parentheses : forall (constraint : bool) name, plain name ->
+  parse_label ([if constraint then ch "@" else ch "~"] ++ name) = Some (constraint, name, []).
+Proof. exact parse_label_no_parentheses. Qed.
+Print Assumptions C16_parse_label_no_parentheses.
+
+Theorem C16_parse_labels_joined : forall labels,
+  labels <> [] -> Forall (free_of (ch "&")) labels ->
+  parse_labels (join (lit "&") labels) = map parse_label labels.
+Proof. exact parse_labels_joined. Qed.
+Print Assumptions C16_parse_labels_joined.
+
+Theorem C16_parse_label_ignores_surrounding_blanks : forall l, parse_label (lit " " ++ l ++ lit " ") = parse_label l.
+Proof. exact parse_label_ignores_surrounding_blanks. Qed.
+Print Assumptions C16_parse_label_ignores_surrounding_blanks.
+
+Example C16_ex :
+  parse_labels (lit "@gc(mini:0.25, window=8) & ~keep"%string)
+  = [Some (true, lit "gc"%string, [Kw (lit "mini"%string) (VFloat (lit "0.25"%string)); Kw (lit "window"%string) (VInt 8)]);
+     Some (false, lit "keep"%string, [])].
+Proof. vm_compute. reflexivity. Qed.
